@@ -3,6 +3,7 @@ import Pcore.Model.Object
 import Pcore.Model.ObjectSchema
 import Pcore.Model.ObjectInitHash
 import Pcore.Model.ObjectParams
+import Pcore.Model.ObjectFuncs
 import Pcore.Generated.ObjectSchema
 /-! Driver op for C17:  `obj (D0 D1 …) (A0 A1 …)`  (syntax in harness/c17/c17.go). -/
 namespace C17
@@ -111,7 +112,30 @@ def paramOf : Sexp → Option (String × Ty)
     pure (k', t')
   | _ => none
 
-def defOf5 (i : Nat) (p as q e s : Sexp) (cs ps : List Sexp) : Option Def :=
+/-- the return type of a member function: no Variant inside (type equality of Variants is not structural) -/
+def plainRet : Ty → Bool
+  | .variant _ _ => false
+  | .opt t => plainRet t
+  | .notUndef t => plainRet t
+  | .array t => plainRet t
+  | _ => true
+
+/-- a `functions` entry `(NAME TY [o] [f])`: Callable[[0,0],TY], `override => true`, `final => true` -/
+def fnOf : Sexp → Option FnDecl
+  | .list (n :: t :: flags) => do
+    let name ← nameOf n
+    let ret ← tyOf t
+    if !plainRet ret then none
+    let (override, final) ← (match flags with
+      | [] => some (false, false)
+      | [.atom "o"] => some (true, false)
+      | [.atom "f"] => some (false, true)
+      | [.atom "o", .atom "f"] => some (true, true)
+      | _ => none)
+    pure { name := name, ret := ret, override := override, final := final }
+  | _ => none
+
+def defOf5 (i : Nat) (p as q e s : Sexp) (cs ps fs : List Sexp) : Option Def :=
   match as with
   | .list as => do
     let parent ← optOf Sexp.nat? p
@@ -127,16 +151,56 @@ def defOf5 (i : Nat) (p as q e s : Sexp) (cs ps : List Sexp) : Option Def :=
     if repeats (constants.map (·.1)) then none
     let params ← ps.mapM paramOf
     if repeats (params.map (·.1)) then none
+    let funcs ← fs.mapM fnOf
+    if repeats (funcs.map (·.name)) then none
     pure { parent := parent, attrs := attrs, equality := equality, includeType := includeType,
-           serialization := serialization, constants := constants, params := params }
+           serialization := serialization, constants := constants, params := params, funcs := funcs }
+  | _ => none
+
+/-- the optional trailing elements of a definition, in this order: `(k …)` constants, `(p …)` type parameters, `(fn …)` functions -/
+def tailOf : List Sexp → Option (List Sexp × List Sexp × List Sexp)
+  | [] => some ([], [], [])
+  | .list (.atom "k" :: cs) :: rest =>
+    match rest with
+    | [] => some (cs, [], [])
+    | [.list (.atom "p" :: ps)] => some (cs, ps, [])
+    | [.list (.atom "fn" :: fs)] => some (cs, [], fs)
+    | [.list (.atom "p" :: ps), .list (.atom "fn" :: fs)] => some (cs, ps, fs)
+    | _ => none
+  | [.list (.atom "p" :: ps)] => some ([], ps, [])
+  | [.list (.atom "p" :: ps), .list (.atom "fn" :: fs)] => some ([], ps, fs)
+  | [.list (.atom "fn" :: fs)] => some ([], [], fs)
   | _ => none
 
 def defOf (i : Nat) : Sexp → Option Def
-  | .list [p, as, q, e, s] => defOf5 i p as q e s [] []
-  | .list [p, as, q, e, s, .list (.atom "k" :: cs)] => defOf5 i p as q e s cs []
-  | .list [p, as, q, e, s, .list (.atom "p" :: ps)] => defOf5 i p as q e s [] ps
-  | .list [p, as, q, e, s, .list (.atom "k" :: cs), .list (.atom "p" :: ps)] => defOf5 i p as q e s cs ps
+  | .list (p :: as :: q :: e :: s :: rest) => do
+    let (cs, ps, fs) ← tailOf rest
+    defOf5 i p as q e s cs ps fs
   | _ => none
+
+/-- the universe restriction on member functions: along a chain no function shares its name with an attribute or constant
+    (own or inherited, in either direction), and `equality` / `serialization` name no function.  `chain i` = the attribute /
+    constant names and the function names of definition `i` and its ancestors. -/
+def chainNames (ds : List Def) : Nat → Nat → List String × List String
+  | 0, _ => ([], [])
+  | fuel + 1, i =>
+    match ds[i]? with
+    | none => ([], [])
+    | some d =>
+      let (pa, pf) := match d.parent with
+        | some j => if j < i then chainNames ds fuel j else ([], [])
+        | none => ([], [])
+      (d.attrs.map (·.name) ++ d.constants.map (·.1) ++ pa, d.funcs.map (·.name) ++ pf)
+
+def fnNamesOK (ds : List Def) : Bool :=
+  (List.range ds.length).all fun i =>
+    let (as, fs) := chainNames ds (ds.length + 1) i
+    match ds[i]? with
+    | none => true
+    | some d =>
+      !(fs.any (fun f => as.contains f)) &&
+      !((d.equality.toList?.getD []).any (fun n => fs.contains n)) &&
+      !((d.serialization.getD []).any (fun n => fs.contains n))
 
 def defsOf : Nat → List Sexp → Option (List Def)
   | _, [] => some []
@@ -270,7 +334,7 @@ def runActs (env : List OType) : List (Option PObj) → List Action → List Str
       | _, _ => "noobj") :: runActs env objs as
     | .inst t o =>
       (match (objs[o]?).join, env[t]? with
-      | some ob, some ty => boolStr (isInstanceX ty ob)
+      | some ob, some ty => boolStr (isInstanceF ty ob.obj)
       | _, _ => "noobj") :: runActs env objs as
 
 /-- the definitions the accepted types print as (`objectType.InitHash()`), in order -/
@@ -289,7 +353,7 @@ def exec : List Sexp → String
   | [.atom "obj", .list ds, .list as] =>
     match defsOf 0 ds, as.mapM actionOf with
     | some defs, some acts =>
-      if defs.isEmpty then "bad-op" else
+      if defs.isEmpty || !fnNamesOK defs then "bad-op" else
       let (rs, env) := runDefs [] defs
       let head := "def " ++ " ".intercalate rs
       match env with
